@@ -230,3 +230,64 @@ class _Node:
 
     def __getitem__(self, i):
         return self.loc if i == 0 else self.val
+
+
+def verify_desc_wild(doc, observed):
+    """Linear-time membership test for `$..[*]` / `$..*`: is `observed` (a sequence of locations) one of the orderings RFC 9535
+    permits? Same partial order as Orders.permitted_visits (a container is visited after its parent; container elements of
+    one array are visited in index order) + per visited container: its children form one contiguous run, an array's in index
+    order, an object's in any order. Returns None if permitted, else a reason string."""
+    def at(loc):
+        v = doc
+        for k in loc:
+            v = v[k]
+        return v
+    runs = []          # (parent location, [keys])
+    for loc in observed:
+        if not loc:
+            return "the root is not a child of anything"
+        p = tuple(loc[:-1])
+        if runs and runs[-1][0] == p:
+            runs[-1][1].append(loc[-1])
+        else:
+            runs.append((p, [loc[-1]]))
+    pos = {}
+    for i, (p, keys) in enumerate(runs):
+        if p in pos:
+            return "children of %r appear in more than one run" % (p,)
+        pos[p] = i
+        try:
+            v = at(p)
+        except (KeyError, IndexError, TypeError):
+            return "no such container %r" % (p,)
+        if isinstance(v, list):
+            if keys != list(range(len(v))):
+                return "elements of array %r not selected exactly once in index order" % (p,)
+        elif isinstance(v, dict):
+            if len(keys) != len(v) or set(keys) != set(v):
+                return "members of object %r not selected exactly once" % (p,)
+        else:
+            return "%r is not a container" % (p,)
+    # every non-empty container must have its run
+    stack = [((), doc)]
+    n_expected = 0
+    while stack:
+        l, v = stack.pop()
+        if isinstance(v, (list, dict)) and len(v):
+            n_expected += 1
+            if l not in pos:
+                return "children of %r missing" % (l,)
+            if l and pos[l[:-1]] > pos[l]:
+                return "container %r visited before its parent" % (l,)
+            items = list(enumerate(v)) if isinstance(v, list) else list(v.items())
+            prev = None
+            for k, c in items:
+                if isinstance(c, (list, dict)):
+                    stack.append((l + (k,), c))
+                    if isinstance(v, list) and len(c):
+                        if prev is not None and pos.get(prev, -1) > pos.get(l + (k,), 10**18):
+                            return "array %r: element %r visited before an earlier element" % (l, k)
+                        prev = l + (k,)
+    if n_expected != len(runs):
+        return "unexpected extra runs"
+    return None
